@@ -176,13 +176,19 @@ class malVisitor(ParseTreeVisitor):
         return ret
 
     def visitTtcterm(self, ctx):
-        if len(factors := ctx.ttcfact()) == 1:
-            ret = self.visit(factors[0])
-        else:
-            ret = {}
-            ret["type"] = "multiplication" if ctx.STAR() else "division"
-            ret["lhs"] = self.visit(factors[0])
-            ret["rhs"] = self.visit(factors[1])
+        factors = ctx.ttcfact()
+
+        # left-associative chain: the operator between factors i-1 and i is
+        # the child at position 2i-1
+        ret = self.visit(factors[0])
+        for i in range(1, len(factors)):
+            ret = {
+                "type": "multiplication"
+                if ctx.children[2 * i - 1].getText() == "*"
+                else "division",
+                "lhs": ret,
+                "rhs": self.visit(factors[i]),
+            }
 
         return ret
 
